@@ -3,10 +3,12 @@ package eventloop
 import (
 	"context"
 	"fmt"
+	"reflect"
 	"sort"
 	"strings"
 	"sync"
 	"testing"
+	"time"
 )
 
 // at most c14MaxPerFingerprint failures per fingerprint are forwarded (the shared helper keeps 200 in
@@ -336,6 +338,17 @@ func c14Reg(el *EventLoop, t int, f func(t int, id, ser uint64), opts ...Handler
 	}
 }
 
+func c14TypeOf(t int) reflect.Type {
+	switch t {
+	case 0:
+		return reflect.TypeFor[c14Ev0]()
+	case 1:
+		return reflect.TypeFor[c14Ev1]()
+	default:
+		return reflect.TypeFor[c14Ev2]()
+	}
+}
+
 func c14Delay(el *EventLoop, t int, ev any) {
 	switch t {
 	case 0:
@@ -375,7 +388,7 @@ func (l *c14Logger) Warnf(tmpl string, args ...any) {
 }
 
 type c14Act struct {
-	Kind   string `json:"k"` // add addnil delay delaynil reg unreg tick
+	Kind   string `json:"k"` // add addnil delay delaynil reg unreg tick run (run: K=0 context cancelled before Run, K=1 cancelled by the first handled event)
 	T      int    `json:"t,omitempty"`
 	ET     int    `json:"et,omitempty"` // type of the deferred event
 	ID     uint64 `json:"id,omitempty"`
@@ -383,6 +396,7 @@ type c14Act struct {
 	Prio   bool   `json:"prio,omitempty"`
 	RunAdd bool   `json:"runadd,omitempty"`
 	K      int    `json:"n,omitempty"`
+	Ticks  int    `json:"ticks,omitempty"` // "run": number of Tick steps el.Run was observed to perform (filled in after the run)
 }
 
 func c14Event(t int, id uint64) string { return fmt.Sprintf("(%s, %s)", gN(uint64(t)), gN(id)) }
@@ -406,12 +420,18 @@ func (a c14Act) gallina() string {
 }
 
 func c14ProgGallina(prog []c14Act) string {
-	ss := make([]string, len(prog))
-	for i, a := range prog {
-		if a.Kind == "tick" {
-			ss[i] = "OTick"
-		} else {
-			ss[i] = "OAct (" + a.gallina() + ")"
+	var ss []string
+	for _, a := range prog {
+		switch a.Kind {
+		case "tick":
+			ss = append(ss, "OTick")
+		case "run":
+			// el.Run with a cancelled context = Tick until the queue is empty
+			for i := 0; i < a.Ticks; i++ {
+				ss = append(ss, "OTick")
+			}
+		default:
+			ss = append(ss, "OAct ("+a.gallina()+")")
 		}
 	}
 	return gList(ss)
@@ -488,11 +508,21 @@ type c14Run struct {
 	overflowed  bool
 	nDeferred   int
 	nNested     int
+	tickFrom    int
+	tickLive    [c14Types][]int
+	inRun       bool
+	runPops     int
+	runCancel   func()
+	nRuns       int
+	lastRunTicks int
 }
 
 // once a run is aborted (handler nesting too deep for the bounded model) it is discarded entirely
 func (r *c14Run) fail(fp, what string) {
 	if !r.aborted {
+		if st, ok := r.meta["stream"].(string); ok {
+			r.v.Count("oracle-failures-in-stream:" + st)
+		}
 		c14Oracle(r.v, false, fp, what, r.meta)
 	}
 }
@@ -588,6 +618,18 @@ func (r *c14Run) handler(reg int) func(t int, id, ser uint64) {
 		if r.depth > c14MaxDepth || r.calls > c14MaxCalls {
 			r.aborted = true
 			return
+		}
+		if r.inRun && r.depth == 0 && reg < c14Types {
+			// Run popped the next event: the previous iteration is complete
+			if r.runPops > 0 {
+				r.endTick(true)
+				r.beginTick()
+			}
+			r.runPops++
+			if r.runCancel != nil {
+				r.runCancel()
+				r.runCancel = nil
+			}
 		}
 		r.trace = append(r.trace, c14Ent{kind: 'H', depth: r.depth, inadd: g.runadd, h: g.h, t: t, id: id, ser: ser, reg: reg})
 		// recorder duties (registrations 0..2*c14Types-1 are the recorders, see c14Prefix)
@@ -704,36 +746,80 @@ func (r *c14Run) do(a c14Act) {
 			r.unregs[a.K]()
 		}
 	case "tick":
-		live := [c14Types][]int{}
-		for t := 0; t < c14Types; t++ {
-			live[t] = r.liveSet(t, false)
-		}
-		from := len(r.trace)
 		wantOK := len(r.refq) > 0
-		r.inTick, r.tickType, r.frozen, r.expect = true, -1, false, nil
+		r.beginTick()
 		ok := r.el.Tick(context.Background())
-		r.inTick = false
 		if r.aborted {
+			r.inTick = false
 			return
 		}
-		r.flushReadd()
 		if ok != wantOK {
 			r.fail("loop.tick:wrong-result", fmt.Sprintf("Tick returned %v with %d events pending", ok, len(r.refq)))
 		}
-		if ok && r.tickType >= 0 {
-			if !r.frozen {
-				r.expect = r.deferred[r.tickType]
-				r.deferred[r.tickType] = nil
-			}
-			if len(r.expect) > 0 {
-				r.fail("loop.deferred:not-readded", fmt.Sprintf("events deferred until type %d (serials %v) were not re-added after an event of that type was handled", r.tickType, r.expect))
-			}
-			r.checkDispatch(from, 0, false, live[r.tickType], fmt.Sprintf("Tick handling an event of type %d", r.tickType))
-		} else if ok {
-			r.fail("loop.dispatch:not-exactly-once", "Tick returned true but the recording handler of no type saw an event")
+		r.endTick(ok)
+	case "run":
+		// el.Run with a context that is cancelled before the call (K=0) or by the first handled event (K=1):
+		// Run must handle everything that is pending (and whatever the handlers add meanwhile) exactly like
+		// repeated Tick calls, then return.
+		ctx, cancel := context.WithCancel(context.Background())
+		watchdog := time.AfterFunc(10*time.Second, cancel)
+		r.nRuns++
+		r.inRun, r.runPops, r.runCancel = true, 0, nil
+		if a.K == 1 && len(r.refq) > 0 {
+			r.runCancel = cancel
+		} else {
+			cancel()
 		}
-		r.trace = append(r.trace, c14Ent{kind: 'T', ok: ok})
+		r.beginTick()
+		r.el.Run(ctx)
+		watchdog.Stop()
+		cancel()
+		r.inRun = false
+		if r.aborted {
+			r.inTick = false
+			return
+		}
+		if r.runPops > 0 {
+			r.endTick(true)
+		} else {
+			r.inTick = false
+		}
+		r.lastRunTicks = r.runPops
+		if r.el.eventQ.len() == 0 {
+			r.trace = append(r.trace, c14Ent{kind: 'T', ok: false})
+			r.lastRunTicks++
+		}
+		if len(r.refq) > 0 {
+			r.fail("loop.run:returned-with-pending-events", fmt.Sprintf("Run returned on a cancelled context with %d events still pending (they were pending before the queue was seen empty)", len(r.refq)))
+		}
 	}
+}
+
+// beginTick / endTick bracket the handling of one popped event (a Tick call, or one iteration of Run).
+func (r *c14Run) beginTick() {
+	for t := 0; t < c14Types; t++ {
+		r.tickLive[t] = r.liveSet(t, false)
+	}
+	r.tickFrom = len(r.trace)
+	r.inTick, r.tickType, r.frozen, r.expect = true, -1, false, nil
+}
+
+func (r *c14Run) endTick(ok bool) {
+	r.inTick = false
+	r.flushReadd()
+	if ok && r.tickType >= 0 {
+		if !r.frozen {
+			r.expect = r.deferred[r.tickType]
+			r.deferred[r.tickType] = nil
+		}
+		if len(r.expect) > 0 {
+			r.fail("loop.deferred:not-readded", fmt.Sprintf("events deferred until type %d (serials %v) were not re-added after an event of that type was handled", r.tickType, r.expect))
+		}
+		r.checkDispatch(r.tickFrom, 0, false, r.tickLive[r.tickType], fmt.Sprintf("Tick handling an event of type %d", r.tickType))
+	} else if ok {
+		r.fail("loop.dispatch:not-exactly-once", "Tick returned true but the recording handler of no type saw an event")
+	}
+	r.trace = append(r.trace, c14Ent{kind: 'T', ok: ok})
 }
 
 // prefix of every program: per type a prioritised recorder in slot 0 (the first to see every popped event)
@@ -778,10 +864,13 @@ func c14RunLoop(v *verifOut, s *verifStream, stream string, capacity int, tbl []
 				r.fail("loop:panic", fmt.Sprintf("the event loop panicked: %v", x))
 			}
 		}()
-		for _, a := range prog {
+		for i, a := range prog {
 			r.do(a)
 			if r.aborted {
 				break
+			}
+			if a.Kind == "run" {
+				prog[i].Ticks = r.lastRunTicks
 			}
 		}
 	}()
@@ -801,6 +890,21 @@ func c14RunLoop(v *verifOut, s *verifStream, stream string, capacity int, tbl []
 		}
 		if _, _, ser, ok := c14Unpack(ev); ok {
 			pend[ser]++
+		}
+	}
+	// events still waiting for their type must be exactly the deferred ones not yet re-added, in order
+	// (in-package read of the anchored state waitingEvents; a lost list is otherwise only seen much later)
+	for t := 0; t < c14Types; t++ {
+		var have []uint64
+		r.el.mut.Lock()
+		for _, ev := range r.el.waitingEvents[c14TypeOf(t)] {
+			if _, _, ser, ok := c14Unpack(ev); ok {
+				have = append(have, ser)
+			}
+		}
+		r.el.mut.Unlock()
+		if fmt.Sprint(have) != fmt.Sprint(r.deferred[t]) {
+			r.fail("loop.deferred:waiting-list-differs", fmt.Sprintf("events waiting for type %d: serials %v, but deferred and not yet re-added (in deferral order): %v", t, have, r.deferred[t]))
 		}
 	}
 	for ser, n := range r.addedCnt {
@@ -823,7 +927,7 @@ func c14RunLoop(v *verifOut, s *verifStream, stream string, capacity int, tbl []
 	for i, e := range r.trace {
 		obs[i] = e.gallina()
 	}
-	key := fmt.Sprintf("l%d|%s|%s", capacity, c14TblGallina(tbl), c14ProgGallina(body))
+	key := fmt.Sprintf("l%d|%s|%s", capacity, c14TblGallina(tbl), c14ProgGallina(prog[2*c14Types:len(prog)-c14Types-capacity-3]))
 	nontrivial := r.overflowed || r.nDeferred > 0 || r.nNested > 0
 	v.Seen(key, nontrivial, map[string]any{"capacity": capacity, "ops": len(body), "overflowed": r.overflowed, "deferred": r.nDeferred, "nested_handler_calls": r.nNested})
 	if r.overflowed {
@@ -837,6 +941,9 @@ func c14RunLoop(v *verifOut, s *verifStream, stream string, capacity int, tbl []
 	}
 	if r.doubleUnreg {
 		v.Count("loop:prog-with-stale-unregister")
+	}
+	if r.nRuns > 0 {
+		v.Count("loop:prog-with-Run")
 	}
 	v.Count("loop:" + stream)
 	v.Case(s, fmt.Sprintf("(%s, %s, %s, %s)", gNat(capacity), c14TblGallina(tbl), c14ProgGallina(prog), gList(obs)), meta)
@@ -861,6 +968,8 @@ func c14RandAct(v *verifOut, nextID *uint64, nTokens int, allowTick bool) c14Act
 		return c14Act{Kind: "addnil"}
 	case r < 75:
 		return c14Act{Kind: "delaynil", T: t}
+	case r < 78 && allowTick:
+		return c14Act{Kind: "run", K: v.rng.Intn(2)}
 	default:
 		if allowTick {
 			return c14Act{Kind: "tick"}
@@ -958,6 +1067,187 @@ func c14LoopStreams(v *verifOut) {
 		{Kind: "delay", T: 0, ET: 1, ID: 5}, {Kind: "delay", T: 0, ET: 2, ID: 6}, {Kind: "delay", T: 0, ET: 1, ID: 7},
 		{Kind: "add", T: 0, ID: 8}, {Kind: "tick"}, {Kind: "tick"}, {Kind: "unreg", K: 6}, {Kind: "unreg", K: 6},
 		{Kind: "add", T: 0, ID: 9}, {Kind: "tick"}, {Kind: "tick"}, {Kind: "tick"}, {Kind: "tick"}})
+	c14HardenedLoopStreams(v, s)
+}
+
+// Directed families for dimensions the random stream reaches only by luck.
+func c14HardenedLoopStreams(v *verifOut, s *verifStream) {
+	flags := [][2]bool{{false, false}, {true, false}, {false, true}, {true, true}} // (prio, runadd)
+
+	// (d) every ordered pair of things a handler can do while it is being dispatched (add same/other type,
+	//     defer on same/other type, unregister itself / a later handler, register ordinary / prioritised /
+	//     run-in-AddEvent handlers, nil event) x the handler's own options x what the next handler does.
+	//     Token 6 = the varied handler (type 0), 7 = second handler (type 0), 8 = run-in-AddEvent handler on type 1.
+	acts := []c14Act{
+		{Kind: "add", T: 0, ID: 50}, {Kind: "add", T: 1, ID: 51},
+		{Kind: "delay", T: 0, ET: 1, ID: 52}, {Kind: "delay", T: 1, ET: 0, ID: 53},
+		{Kind: "unreg", K: 6}, {Kind: "unreg", K: 7},
+		{Kind: "reg", T: 0, H: 4, Prio: true}, {Kind: "reg", T: 0, H: 4, RunAdd: true}, {Kind: "reg", T: 1, H: 5, RunAdd: true},
+		{Kind: "addnil"},
+	}
+	seconds := [][]c14Act{{}, {{Kind: "unreg", K: 6}}, {{Kind: "delay", T: 0, ET: 1, ID: 54}}}
+	stride := v.Pick(1, 1)
+	n := 0
+	for i, a1 := range acts {
+		for j, a2 := range acts {
+			for fi, f := range flags {
+				for si, sec := range seconds {
+					n++
+					if n%stride != 0 {
+						continue
+					}
+					b1, b2 := a1, a2
+					b1.ID, b2.ID = a1.ID*10+1, a2.ID*10+2
+					tbl := [][]c14Act{{}, {}, {b1, b2}, sec, {},
+						{{Kind: "delay", T: 0, ET: 1, ID: 55}, {Kind: "delay", T: 0, ET: 1, ID: 56}}}
+					body := []c14Act{
+						{Kind: "reg", T: 0, H: 2, Prio: f[0], RunAdd: f[1]}, {Kind: "reg", T: 0, H: 3}, {Kind: "reg", T: 1, H: 4, RunAdd: true},
+						{Kind: "delay", T: 0, ET: 1, ID: 1}, {Kind: "delay", T: 0, ET: 1, ID: 2},
+						{Kind: "add", T: 0, ID: 3}, {Kind: "tick"}, {Kind: "tick"},
+						{Kind: "add", T: 0, ID: 4}, {Kind: "tick"}, {Kind: "tick"}, {Kind: "tick"},
+					}
+					_ = i
+					_ = j
+					_ = fi
+					_ = si
+					c14RunLoop(v, s, "combo", 5, tbl, body)
+				}
+			}
+		}
+	}
+
+	// (e) deferring while the deferred events of the same type are being re-added, and two types whose
+	//     deferred lists feed each other: a batch of B events (type 1) waits for type 0; a run-in-AddEvent
+	//     handler on type 1 (it sees every re-added event) defers k new events on type 0 and k2 on type 1;
+	//     a handler on type 0 defers on type 1 during the dispatch phase.
+	for _, capacity := range []int{2, 12} {
+		for B := 1; B <= 4; B++ {
+			for k := 0; k <= 3; k++ {
+				for k2 := 0; k2 <= 1; k2++ {
+					for _, prio := range []bool{false, true} {
+						var sc []c14Act
+						for x := 0; x < k; x++ {
+							sc = append(sc, c14Act{Kind: "delay", T: 0, ET: 2, ID: 60 + uint64(x)})
+						}
+						for x := 0; x < k2; x++ {
+							sc = append(sc, c14Act{Kind: "delay", T: 1, ET: 0, ID: 70 + uint64(x)})
+						}
+						tbl := [][]c14Act{{}, {}, sc, {{Kind: "delay", T: 1, ET: 2, ID: 80}, {Kind: "delay", T: 0, ET: 1, ID: 81}}, {}, {}}
+						body := []c14Act{{Kind: "reg", T: 1, H: 2, Prio: prio, RunAdd: true}, {Kind: "reg", T: 0, H: 3}}
+						for x := 0; x < B; x++ {
+							body = append(body, c14Act{Kind: "delay", T: 0, ET: 1, ID: 1 + uint64(x)})
+						}
+						body = append(body, c14Act{Kind: "delay", T: 1, ET: 0, ID: 9}, c14Act{Kind: "delay", T: 2, ET: 0, ID: 10})
+						body = append(body, c14Act{Kind: "add", T: 0, ID: 11})
+						for x := 0; x < B+2; x++ {
+							body = append(body, c14Act{Kind: "tick"})
+						}
+						body = append(body, c14Act{Kind: "add", T: 0, ID: 12})
+						if k2 == 0 {
+							body = append(body, c14Act{Kind: "run", K: B % 2})
+						} else { // the two lists feed each other for ever: bounded number of steps
+							for x := 0; x < 6; x++ {
+								body = append(body, c14Act{Kind: "tick"})
+							}
+						}
+						body = append(body, c14Act{Kind: "add", T: 1, ID: 13}, c14Act{Kind: "tick"}, c14Act{Kind: "tick"})
+						c14RunLoop(v, s, "defer-during-readd", capacity, tbl, body)
+					}
+				}
+			}
+		}
+	}
+
+	// (f) re-registration after unregistration: the freed slot is reused by a handler with other options;
+	//     for every pair of option sets and every slot position among handlers with distinct options
+	for fa, A := range flags {
+		for fb, B := range flags {
+			for pos := 0; pos <= 2; pos++ {
+				for variant := 0; variant < 2; variant++ {
+					_ = fa
+					_ = fb
+					var body []c14Act
+					fill := []c14Act{{Kind: "reg", T: 0, H: 3}, {Kind: "reg", T: 0, H: 4, Prio: true}}
+					tokA := 2 * c14Types
+					for x := 0; x < pos; x++ {
+						body = append(body, fill[x])
+						tokA++
+					}
+					body = append(body, c14Act{Kind: "reg", T: 0, H: 2, Prio: A[0], RunAdd: A[1]})
+					for x := pos; x < 2; x++ {
+						body = append(body, fill[x])
+					}
+					if variant == 1 {
+						body = append(body, c14Act{Kind: "add", T: 0, ID: 1}, c14Act{Kind: "tick"})
+					}
+					body = append(body, c14Act{Kind: "unreg", K: tokA},
+						c14Act{Kind: "reg", T: 0, H: 5, Prio: B[0], RunAdd: B[1]}, // reuses A's slot
+						c14Act{Kind: "reg", T: 0, H: 4, Prio: true},              // genuinely prioritised, registered later
+						c14Act{Kind: "add", T: 0, ID: 2}, c14Act{Kind: "add", T: 1, ID: 3}, c14Act{Kind: "tick"}, c14Act{Kind: "tick"},
+						c14Act{Kind: "unreg", K: 2*c14Types + 3}, // the reusing handler
+						c14Act{Kind: "reg", T: 0, H: 2, Prio: A[0], RunAdd: A[1]},
+						c14Act{Kind: "add", T: 0, ID: 4}, c14Act{Kind: "tick"})
+					if variant == 1 {
+						body[len(body)-5].K = 2*c14Types + 3
+					}
+					tbl := [][]c14Act{{}, {}, {}, {}, {}, {}}
+					c14RunLoop(v, s, "reregister", 6, tbl, body)
+				}
+			}
+		}
+	}
+
+	// (g) nested dispatch with several handlers on every level (the handler lists of an outer dispatch
+	//     must survive the dispatches its handlers trigger): type 0 has n0 prioritised + m0 ordinary
+	//     handlers that each add a type-1 event; type 1 has n1 prioritised + m1 ordinary run-in-AddEvent
+	//     handlers that (depth 2) each add a type-2 event seen by run-in-AddEvent handlers on type 2.
+	for n0 := 1; n0 <= 3; n0++ {
+		for m0 := 0; m0 <= 2; m0++ {
+			for n1 := 1; n1 <= 3; n1++ {
+				for m1 := 0; m1 <= 2; m1 += 2 {
+					for deep := 0; deep < 2; deep++ {
+						inner := []c14Act{}
+						if deep == 1 {
+							inner = []c14Act{{Kind: "add", T: 2, ID: 30}}
+						}
+						tbl := [][]c14Act{{}, {}, {{Kind: "add", T: 1, ID: 20}}, inner, {}, {}}
+						var body []c14Act
+						for x := 0; x < n0; x++ {
+							body = append(body, c14Act{Kind: "reg", T: 0, H: 2, Prio: true})
+						}
+						for x := 0; x < m0; x++ {
+							body = append(body, c14Act{Kind: "reg", T: 0, H: 2})
+						}
+						for x := 0; x < n1; x++ {
+							body = append(body, c14Act{Kind: "reg", T: 1, H: 3, Prio: true, RunAdd: true})
+						}
+						for x := 0; x < m1; x++ {
+							body = append(body, c14Act{Kind: "reg", T: 1, H: 3, RunAdd: true})
+						}
+						body = append(body, c14Act{Kind: "reg", T: 2, H: 4, Prio: true, RunAdd: true}, c14Act{Kind: "reg", T: 2, H: 5, RunAdd: true},
+							c14Act{Kind: "add", T: 0, ID: 1}, c14Act{Kind: "tick"}, c14Act{Kind: "add", T: 0, ID: 2}, c14Act{Kind: "run"})
+						c14RunLoop(v, s, "nested-dispatch", 64, tbl, body)
+					}
+				}
+			}
+		}
+	}
+
+	// (h) Run on a cancelled context / cancelled by the first handled event: k pending events of mixed
+	//     types (exactly full and overflowing included), handlers that add and defer during the run
+	rtbl := [][]c14Act{{}, {}, {{Kind: "add", T: 1, ID: 40}, {Kind: "delay", T: 1, ET: 2, ID: 41}}, {{Kind: "delay", T: 0, ET: 2, ID: 42}}, {}, {}}
+	for capacity := 1; capacity <= 4; capacity++ {
+		for k := 0; k <= capacity+1; k++ {
+			for mode := 0; mode < 2; mode++ {
+				body := []c14Act{{Kind: "reg", T: 0, H: 2}, {Kind: "reg", T: 1, H: 3, Prio: true}, {Kind: "delay", T: 0, ET: 2, ID: 5}}
+				for x := 0; x < k; x++ {
+					body = append(body, c14Act{Kind: "add", T: x % 2, ID: 10 + uint64(x)})
+				}
+				body = append(body, c14Act{Kind: "run", K: mode}, c14Act{Kind: "run", K: mode}, c14Act{Kind: "add", T: 0, ID: 30}, c14Act{Kind: "run", K: 1 - mode})
+				c14RunLoop(v, s, "run", capacity, rtbl, body)
+			}
+		}
+	}
 }
 
 // ---------------------------------------------------------------------------------------------
@@ -1025,8 +1315,13 @@ func c14ConcurrentStreams(v *verifOut) {
 		producers := 2 + v.rng.Intn(5)
 		per := 50 + v.rng.Intn(v.Pick(200, 1500))
 		capacity := 2 + v.rng.Intn(6)
-		if round%3 == 0 {
-			capacity = producers*per + v.rng.Intn(3) // no overflow possible
+		switch round % 6 {
+		case 0:
+			capacity = producers * per // exactly as many slots as entries: no overflow possible
+		case 3:
+			capacity = producers*per + v.rng.Intn(3)
+		case 1:
+			capacity = 1
 		}
 		meta := map[string]any{"stream": "concurrent", "capacity": capacity, "producers": producers, "per_producer": per, "round": round}
 		total := map[uint64]bool{}
@@ -1144,10 +1439,166 @@ func c14ConcurrentStreams(v *verifOut) {
 	}
 }
 
+// Further concurrent scenarios: (1) producers fill a queue nobody reads to exactly its capacity, one
+// entry beyond, ... (the dropped entries are known exactly: every producer loses a prefix of its own
+// sequence, capacity entries survive); (2) el.Run as the consumer, cancelled while producers are active.
+func c14ConcurrentHardened(v *verifOut) {
+	rounds := v.Pick(30, 300)
+	for round := 0; round < rounds; round++ {
+		producers := 1 + v.rng.Intn(5)
+		capacity := 1 + v.rng.Intn(12)
+		if round%5 == 0 {
+			capacity = 1
+		}
+		extra := round % 4 // total = capacity + extra - 1 : one below, exactly full, one and two beyond
+		total := capacity + extra - 1
+		if total < 1 {
+			total = 1
+		}
+		meta := map[string]any{"stream": "concurrent-fill", "capacity": capacity, "producers": producers, "total": total, "round": round}
+		share := make([]int, producers)
+		for i := 0; i < total; i++ {
+			share[i%producers]++
+		}
+		all := map[uint64]bool{}
+		for p := 0; p < producers; p++ {
+			for i := 1; i <= share[p]; i++ {
+				all[uint64(p)<<32|uint64(i)] = true
+			}
+		}
+		var mu sync.Mutex
+		var drops []uint64
+		lg := &c14Logger{}
+		lg.drop = func(ev any) {
+			if e, ok := ev.(c14Ev0); ok {
+				drops = append(drops, e.Ser)
+			}
+		}
+		el := New(lg, uint(capacity))
+		var got []uint64
+		Register(el, func(e c14Ev0) { mu.Lock(); got = append(got, e.Ser); mu.Unlock() })
+		var wg sync.WaitGroup
+		for p := 0; p < producers; p++ {
+			wg.Add(1)
+			go func(p int) {
+				defer wg.Done()
+				for i := 1; i <= share[p]; i++ {
+					el.AddEvent(c14Ev0{ID: uint64(i), Ser: uint64(p)<<32 | uint64(i)})
+				}
+			}(p)
+		}
+		wg.Wait()
+		n := el.eventQ.len()
+		wantN := total
+		if wantN > capacity {
+			wantN = capacity
+		}
+		c14Oracle(v, n == wantN, "loop.concurrent:wrong-length-after-fill", fmt.Sprintf("%d entries added by %d producers to a queue of capacity %d that nobody reads: len()=%d, want %d", total, producers, capacity, n, wantN), meta)
+		lg.mu.Lock()
+		d := append([]uint64{}, drops...)
+		lg.mu.Unlock()
+		wantDrops := total - wantN
+		c14Oracle(v, len(d) == wantDrops, "loop.concurrent:wrong-number-of-drop-reports", fmt.Sprintf("%d entries added to capacity %d with no consumer: %d drop reports, want exactly %d", total, capacity, len(d), wantDrops), meta)
+		// every producer loses a prefix of its own sequence
+		lost := map[uint64]uint64{}
+		for _, x := range d {
+			if x&0xffffffff > lost[x>>32] {
+				lost[x>>32] = x & 0xffffffff
+			}
+		}
+		cntLost := 0
+		for _, m := range lost {
+			cntLost += int(m)
+		}
+		c14Oracle(v, cntLost == len(d), "loop.concurrent:dropped-not-oldest", fmt.Sprintf("the entries reported dropped (%v) are not the oldest ones of their producers", d), meta)
+		ctx, cancel := context.WithCancel(context.Background())
+		cancel()
+		el.Run(ctx) // cancelled context: handles what is pending, then returns
+		c14CheckConservation(v, "loop", all, got, d, capacity, producers, meta)
+		v.Seen(fmt.Sprintf("cf|%d|%d|%d|%d", round, capacity, producers, total), total >= capacity, map[string]any{"concurrent_fill": meta, "dropped": len(d), "delivered": len(got)})
+		v.Count(fmt.Sprintf("concurrent:fill:total-minus-capacity=%d", total-capacity))
+	}
+
+	rounds = v.Pick(16, 150)
+	for round := 0; round < rounds; round++ {
+		producers := 2 + v.rng.Intn(4)
+		per := 100 + v.rng.Intn(v.Pick(300, 2000))
+		capacity := 1 + v.rng.Intn(8)
+		if round%4 == 0 {
+			capacity = producers * per
+		}
+		meta := map[string]any{"stream": "concurrent-run-cancel", "capacity": capacity, "producers": producers, "per_producer": per, "round": round}
+		all := map[uint64]bool{}
+		for p := 0; p < producers; p++ {
+			for i := 1; i <= per; i++ {
+				all[uint64(p)<<32|uint64(i)] = true
+			}
+		}
+		var mu sync.Mutex
+		var drops []uint64
+		lg := &c14Logger{}
+		lg.drop = func(ev any) {
+			if e, ok := ev.(c14Ev0); ok {
+				drops = append(drops, e.Ser)
+			}
+		}
+		el := New(lg, uint(capacity))
+		var got []uint64
+		ctx, cancel := context.WithCancel(context.Background())
+		cancelAt := v.rng.Intn(producers * per)
+		Register(el, func(e c14Ev0) {
+			mu.Lock()
+			got = append(got, e.Ser)
+			if len(got) == cancelAt+1 {
+				cancel() // cancellation from inside a handler, while producers are still adding
+			}
+			mu.Unlock()
+		})
+		var wg sync.WaitGroup
+		for p := 0; p < producers; p++ {
+			wg.Add(1)
+			go func(p int) {
+				defer wg.Done()
+				for i := 1; i <= per; i++ {
+					el.AddEvent(c14Ev0{ID: uint64(i), Ser: uint64(p)<<32 | uint64(i)})
+				}
+			}(p)
+		}
+		rdone := make(chan struct{})
+		go func() { defer close(rdone); el.Run(ctx) }()
+		wg.Wait()
+		cancel() // in case fewer than cancelAt events were delivered (drops)
+		<-rdone
+		// whatever Run left behind is still pending, in order
+		mu.Lock()
+		delivered := append([]uint64{}, got...)
+		mu.Unlock()
+		left := 0
+		for {
+			ev, ok := el.eventQ.pop()
+			if !ok {
+				break
+			}
+			if e, ok := ev.(c14Ev0); ok {
+				delivered = append(delivered, e.Ser)
+				left++
+			}
+		}
+		lg.mu.Lock()
+		d := append([]uint64{}, drops...)
+		lg.mu.Unlock()
+		c14CheckConservation(v, "loop.run", all, delivered, d, capacity, producers, meta)
+		v.Seen(fmt.Sprintf("cr|%d|%d|%d|%d", round, capacity, producers, per), true, map[string]any{"concurrent_run_cancel": meta, "dropped": len(d), "handled_by_run": len(delivered) - left, "left_pending": left})
+		v.CountN("concurrent:run-cancel-adds", producers*per)
+		v.CountN("concurrent:run-cancel-left-pending", left)
+	}
+}
+
 func TestVerifC14(t *testing.T) {
 	v := verifNew("C14")
 	c14QueueStreams(v)
 	c14LoopStreams(v)
 	c14ConcurrentStreams(v)
+	c14ConcurrentHardened(v)
 	v.Close("queue: op sequences on capacities 1..9, non-trivial = the sequence overflows or wraps around; loop: programs of add/defer/register/unregister/tick, non-trivial = overflow, deferred events or re-entrant handler calls occur")
 }
